@@ -231,8 +231,8 @@ def mgr_runnable(ctx: Ctx, pid: str):
         t = h.lhs[1]
         cons = "TransactionManager.elaborate.runnable"
         lp = loops(h)
-        ok_loop = len(lp) == 1 and pmatch("Q_mm.transactions", lp[0][1]) is not None and lp[0][0][0] == t
-        ctx.check(ok_loop, rule + ".all-transactions", h.site, cons, found=" / ".join(tstr(i) for i in loop_iters(h)),
+        ok_loop = len(lp) == 1 and pmatch("Q_mm.transactions", lp[0][1]) is not None and lp[0][0][0] == t and py_guard(h) is True
+        ctx.check(ok_loop, rule + ".all-transactions", h.site, cons, found=" / ".join(tstr(i) for i in loop_iters(h)) + f" if {fstr(py_guard(h))}",
                   required="runnable is defined for every transaction of the method map")
         m = pmatch("Cat(Q_terms).all()", h.rhs)
         ctx.check(m is not None, rule + ".conjunction", h.site, cons, found=tstr(h.rhs)[:200], required="an .all() reduction of the terms")
@@ -435,7 +435,7 @@ def mm_call_recording(ctx: Ctx, pid: str):
         m = pmatch("rec(Q_a, Q_b, (), (), Q_e)", e.call)
         lp = loops(e)
         one = m["e"] == ("c", 1) or (m["e"][0] == "call" and m["e"][1] in (("n", "C"), ("n", "Const")) and m["e"][2][:1] == (("c", 1),) and m["e"][2][1:] in ((), (("c", 1),)) and not m["e"][3])
-        if len(lp) == 1 and lp[0][1] == init.param(1) and one and pmatch("TBody(Q_t._body)", m["a"]) == {"t": lp[0][0][0]} and m["b"] == ("a", lp[0][0][0], "_body"):
+        if len(lp) == 1 and lp[0][1] == init.param(1) and one and pmatch("TBody(Q_t._body)", m["a"]) == {"t": lp[0][0][0]} and m["b"] == ("a", lp[0][0][0], "_body") and py_guard(e) is True:
             ok = True
     ctx.check(ok, rule + ".roots", init.site, "MethodMap.__init__.roots", found="; ".join(tstr(e.call) for _, e in roots) or "none",
               required="rec(TBody(t._body), t._body, (), (), C(1)) for every transaction")
@@ -604,7 +604,7 @@ def mgr_provided_mirrors(ctx: Ctx, pid: str):
         if h.lhs is None or len(lp) != 1:
             continue
         (b,), it = lp[0]
-        if h.lhs[0] == "a" and h.lhs[1] == b and h.rhs == ("a", ("a", b, "_body"), h.rhs[2] if h.rhs[0] == "a" else ""):
+        if h.lhs[0] == "a" and h.lhs[1] == b and h.rhs == ("a", ("a", b, "_body"), h.rhs[2] if h.rhs[0] == "a" else "") and py_guard(h) is True:
             d = it
             mirrors[h.lhs[2]] = (h.rhs[2], tstr(it))
             site = h.site
@@ -736,9 +736,35 @@ def def_method_result(ctx: Ctx, pid: str):
             rdy = m["r"]
             ok = (len(lp) == 1 and lp[0][0][0] == m["i"] and pmatch("range(len(Q_x))", lp[0][1]) == {"x": m["ms"]} and m["ms"] == fm.param(1)
                   and (pmatch("partial(Q_f, Q_i)", ex.vardef(m["f"]) or m["f"]) or {}).get("i") == m["i"]
-                  and (pmatch("Q_ready(Q_i)", rdy) or {}).get("i") == m["i"])
+                  and (pmatch("Q_ready(Q_i)", rdy) or {}).get("i") == m["i"] and py_guard(e) is True)
     ctx.check(ok, rule + ".def_methods", fm.site, "def_methods.loop", found="; ".join(tstr(e.call)[:200] for _, e in effs) or "none",
               required="def_method(m, methods[i], ready(i), **kwargs)(partial(func, i)) for every i - same index everywhere")
+
+
+def methods_provide(ctx: Ctx, pid: str):
+    """Methods.provide forwards the i-th method to the i-th given method, for every i (C05: 'also through Methods.provide').
+    (The extractor models `for a, b in zip(x, y)` by one index binder: a = x[i], b = y[i].)"""
+    rule = f"{pid}.methods-provide"
+    fn = _fn(ctx, METHOD, "Methods.provide", rule)
+    rels = fn.facts(Relation, lambda r: r.kind == "provide")
+    ctx.floor(rule, "element-wise provide calls", len(rels), 1, fn.site)
+    ok = False
+    given = fn.param(1)
+    for ex, r in rels:
+        lp = loops(r)
+        if len(lp) != 1 or len(r.args) != 1:
+            continue
+        (b,), it = lp[0]
+        subj_ok = r.subject == ("i", ("self",), b)
+        arg = r.args[0]
+        arg_ok = arg[0] == "i" and arg[2] == b and (arg[1] == given or arg[1] == ("call", ("n", "list"), (given,), ()) or (ex.vardef(arg[1]) or arg[1]) == ("call", ("n", "list"), (given,), ()))
+        mz = pmatch("zip(self, Q_ms)", it)
+        ok = subj_ok and arg_ok and mz is not None and py_guard(r) in (True,) or (subj_ok and arg_ok and mz is not None and not [fr for fr in r.frames if fr[0] == "py" and len(fr) > 3])
+    raises = fn.facts(Raise)
+    ctx.check(bool(ok), rule, fn.site, "Methods.provide", found="; ".join(f"{tstr(r.subject)}.provide({', '.join(tstr(a) for a in r.args)}) over {[tstr(i) for i in loop_iters(r)]} if {fstr(py_guard(r))}" for _, r in rels),
+              required="self[i].provide(methods[i]) for every i (zip of the collection with the given methods), not skipping any")
+    ctx.check(bool(raises), rule + ".length", fn.site, "Methods.provide.length", found=f"{len(raises)} raise(s): " + "; ".join(fstr(py_guard(r)) for _, r in raises),
+              required="a list of another length is rejected (zip would silently drop the rest)", nontrivial=False)
 
 
 def body_validate_arguments(ctx: Ctx, pid: str):
